@@ -1,4 +1,4 @@
-import JL.Generated.Fns
+import JL.Rs
 /-!
 # Helper lemmas for the tie theorems of `JL/Tie` (fold-shaped functions, numeric literals, casts)
 -/
@@ -96,22 +96,8 @@ theorem to_i128_eq_trunc (f : F64) (h : F64.lt f.abs ArrOp.F1e30 = true) : Rs.to
     generalize k / S = q at *
     cases n <;> simp <;> omega
 
-theorem number_eq_as_int (n : Num) : Gen.number_eq.as_int n = ArrOp.asInt n := by
-  unfold Gen.number_eq.as_int ArrOp.asInt
-  cases n with
-  | pos n => simp [rs, Num.asU64]
-  | neg m => simp [rs, Num.asU64, Num.asI64]
-  | flt f =>
-    simp only [lit1e30, fract_eq_zero]
-    generalize h128 : Rs.to_i128 = g
-    simp only [rs, Num.asU64, Num.asI64, Num.toF64]
-    rcases Bool.eq_false_or_eq_true (f.fractIsZero && F64.lt f.abs ArrOp.F1e30) with c | c
-    · have c' := c
-      simp only [Bool.and_eq_true] at c'
-      simp only [Option.filter_some, c]
-      simp [← h128, to_i128_eq_trunc f c'.2]
-    · simp only [Option.filter_some, c]
-      simp
+/- `number_eq_as_int` (the tie of the nested helper `as_int`) is in `JL/Tie/number_eq.lean`: this file does not mention any generated
+definition, so that a rewrite of one function cannot break the ties of the others through it. -/
 
 /-! ## `deep_eq`: depth bounds, and the closures over `zip`/`all`/`Map::get` against the model's structural recursion -/
 theorem depth_le_depthList {a : Json} : ∀ {xs : List Json}, a ∈ xs → Json.depth a ≤ Json.depthList xs
